@@ -21,7 +21,7 @@ for id in "$@"; do
   SCR="$(mktemp -d /tmp/verif-seed.XXXXXX)"
   cp "$ROOT/known_findings.jsonl" "$SCR/"
   TMP="$(mktemp -d /tmp/verif.XXXXXX)"
-  EXTRA=(); [ "$id" = C14 ] && EXTRA=(-stmt leveldb/memdb); [ "$id" = C17 ] && EXTRA=(-stmt leveldb/cache); case "$id" in C05|C10) EXTRA=(-stmt "$("$ROOT/scripts/stmtfiles.sh")") ;; esac
+  EXTRA=(); [ "$id" = C14 ] && EXTRA=(-stmt leveldb/memdb); [ "$id" = C17 ] && EXTRA=(-stmt leveldb/cache); case "$id" in C05|C09|C10|C18) EXTRA=(-stmt "$("$ROOT/scripts/stmtfiles.sh")") ;; esac
   if VERIF_REPO="$WT" "$ROOT/scripts/build.sh" "$TMP" "${EXTRA[@]}" >"$TMP/build.log" 2>&1; then
     VERIF_BUDGET_S="${VERIF_BUDGET_S:-1500}" VERIF_ROOT="$SCR" VERIF_RACE_AUDIT=0 timeout 4000 "$TMP/verif" run "$id" "${TIER:-quick}" > "$TMP/run.log" 2>&1
     rc=$?
